@@ -31,7 +31,8 @@ def main():
     dst = os.path.join(ROOT, 'seeded', name)
     os.makedirs(dst, exist_ok=True)
     for f in ('patch.diff', 'demo.py', 'notes.md'):
-        if os.path.exists(os.path.join(src, f)):
+        if os.path.exists(os.path.join(src, f)) and \
+                os.path.abspath(os.path.join(src, f)) != os.path.abspath(os.path.join(dst, f)):
             shutil.copy(os.path.join(src, f), os.path.join(dst, f))
     patch = os.path.join(dst, 'patch.diff')
     demo = os.path.join(dst, 'demo.py')
